@@ -965,13 +965,14 @@ func (g *Gen) closureStmt(d int) N {
 	case 1:
 		// call a maker twice and interleave calls
 		n := g.fresh("h")
-		g.declare(n)
-		g.types[n] = "fn"
 		p := g.fresh("q")
-		body := []any{ExprStmt(Bin("+", Id(p), g.leafOf("int")))}
+		body := []any{ExprStmt(Bin("+", Id(p), Int(g.R.Intn(7))))}
 		inner := N{"k": "func", "params": []any{}, "name": "", "body": body}
 		outer := N{"k": "func", "params": []any{N{"n": p, "hasdef": false, "def": Nil()}}, "name": "", "body": []any{ExprStmt(inner)}}
-		return Var(n, Call(outer, g.texpr(d-1, "int")))
+		arg := g.texpr(d-1, "int")
+		g.declare(n)
+		g.types[n] = "fn"
+		return Var(n, Call(outer, arg))
 	default:
 		return ExprStmt(g.texpr(d, "int"))
 	}
